@@ -219,12 +219,39 @@ theorem C06_assign_to_macro_rejected (f : Nat) (st : St) (t : Tok) (r : List Tok
       ("Attempt to assign to constant \"" ++ t.content ++ "\"")) := by
   have hs : t.str = t.content := by simp [Tok.str, ht, TT.hasString]
   have hm' : ({ st with cur := t, rest := r } : St).hasSymbolTyped t.content [.macro] = true := hm
-  simp [command, getSt, hc, assignment, bind_run, skipToken, advance, hr, ht, hs, hm',
+  simp [command, getSt, hc, assignment, assignable, bind_run, skipToken, advance, hr, ht, hs, hm',
     tokenError, triggerError]
 
-/-- `define f …` for a name that is already a routine (built-in or defined before) is rejected -/
+/-- a name that IS a routine in the symbol table has been given to a routine -/
+theorem routineExists_of_hasRoutine (st : St) (n : String) (h : st.hasRoutine n = true) :
+    st.routineExists n = true := by
+  unfold St.hasRoutine St.getRoutine St.globalOfType Table.get at h
+  unfold St.routineExists
+  generalize st.globals = g at h ⊢
+  induction g with
+  | nil => simp [List.lookup] at h
+  | cons e g ih =>
+    obtain ⟨k, s⟩ := e
+    simp only [List.any_cons, Bool.or_eq_true, Bool.and_eq_true]
+    by_cases hk : n == k
+    · left
+      simp only [List.lookup, hk] at h
+      have hk' : (k == n) = true := by
+        have : n = k := by simpa using hk
+        subst this; simp
+      refine ⟨hk', ?_⟩
+      by_cases hs : s.kind == SymKind.routine
+      · exact hs
+      · simp [hs] at h
+    · right
+      have : List.lookup n ((k, s) :: g) = List.lookup n g := by simp [List.lookup, hk]
+      rw [this] at h
+      simpa [Bool.and_eq_true] using ih h
+
+/-- `define f …` for a name that has been given to a routine (built-in or defined before, even if
+a variable has taken the name since) is rejected -/
 theorem C06_redefine_routine_rejected (name : String) (body : M Unit) (st : St)
-    (hd : st.detectRoutineStart = true) (hr : st.hasRoutine name = true) :
+    (hd : st.detectRoutineStart = true) (hr : st.routineExists name = true) :
     definitionRest name body st =
       .fail (st.addError ("Already defined: \"" ++ st.cur.str ++ "\"")) := by
   simp [definitionRest, St.alreadyDefined, getSt_bind, hd, hr, tokenError, triggerError]
@@ -233,7 +260,7 @@ theorem C06_redefine_routine_rejected (name : String) (body : M Unit) (st : St)
 definition follows the name; so is a macro definition for a name that is a routine.  No `define`
 for a name that is already a macro or a routine goes through. -/
 theorem C06_redefine_macro_rejected (name : String) (body : M Unit) (st : St)
-    (hm : (st.getMacro name).isSome = true ∨ st.hasRoutine name = true) :
+    (hm : (st.getMacro name).isSome = true ∨ st.routineExists name = true) :
     definitionRest name body st = .fail (st.addError ("Already defined: \"" ++
       (if st.detectRoutineStart then st.cur.str else name) ++ "\"")) := by
   have ha : st.alreadyDefined name = true := by
@@ -241,6 +268,13 @@ theorem C06_redefine_macro_rejected (name : String) (body : M Unit) (st : St)
   by_cases hd : st.detectRoutineStart = true
   · simp [definitionRest, getSt_bind, hd, ha, tokenError, triggerError]
   · simp [definitionRest, getSt_bind, hd, ha, triggerError]
+
+/-- a loop's index variable or light variable whose name is a macro is rejected like an assignment
+to the macro (`Parser.assignable`, the test all three share) -/
+theorem C06_macro_as_variable_rejected (n : String) (st : St)
+    (hm : st.hasSymbolTyped n [.macro] = true) :
+    assignable n st = .fail (st.addError ("Attempt to assign to constant \"" ++ n ++ "\"")) := by
+  simp [assignable, getSt_bind, hm, triggerError]
 
 /-- a routine definition inside a routine body is rejected -/
 theorem C06_nested_define_rejected (name : String) (body : M Unit) (st : St)
@@ -330,6 +364,14 @@ example : rejectMsgs (parseLines ["define r begin print 1 end r define r 5"]) =
     some [(1, "Already defined: \"r\"")] := by decide +kernel  -- redefine-routine
 example : rejectMsgs (parseLines ["define round 5"]) =
     some [(1, "Already defined: \"round\"")] := by decide +kernel  -- redefine-routine
+example : rejectMsgs (parseLines ["define r begin print 1 end r assign r 5 define r begin print 2 end"]) =
+    some [(1, "Already defined: \"begin\"")] := by decide +kernel  -- redefine-routine
+example : rejectMsgs (parseLines ["repeat with round from 1 to 2 print round define round with x begin return 7 end"]) =
+    some [(1, "Already defined: \"with\"")] := by decide +kernel  -- redefine-routine
+example : rejectMsgs (parseLines ["define m 5 repeat with m from 1 to 2 begin print m end"]) =
+    some [(1, "Attempt to assign to constant \"m\"")] := by decide +kernel  -- assign-to-macro
+example : rejectMsgs (parseLines ["define m 5 repeat all as m begin print m end"]) =
+    some [(1, "Attempt to assign to constant \"m\"")] := by decide +kernel  -- assign-to-macro
 example : rejectMsgs (parseLines ["hue xyz"]) =
     some [(1, "Unknown: \"xyz\"")] := by decide +kernel  -- undefined-name
 example : rejectMsgs (parseLines ["set lamp"]) =
